@@ -1,0 +1,15 @@
+// Copyright (c) 2024, Intel Corporation.
+// SPDX-License-Identifier: BSD-3-Clause
+
+//go:build verif
+// +build verif
+
+package flate
+
+import "github.com/intel/fastgo/internal/cpu"
+
+// VerifArchLevel reports the acceleration level in force and the one CPUID
+// detected (verification builds only).
+func VerifArchLevel() (inForce, detected int) {
+	return cpu.ArchLevel, cpu.DetectedArchLevel
+}
